@@ -50,7 +50,14 @@ theorem boost_sorted_except_promotion (l : List FileEnt) (h : Desc (·.score) l)
           simp only [List.eraseIdx_cons_succ] at hs2
           have hext' : x.ext ≠ a.ext ∧ x.ext ≠ b.ext := by
             simpa [List.contains_cons] using hext
-          exact fsep_promoted a b x c0 _ hs2 hext'.1 hext'.2 (by omega)
+          have hle : x.score ≤ c0.score := by
+            unfold Desc at h
+            simp only [List.pairwise_cons] at h
+            have hxm : x ∈ rest := by
+              simp only [List.getElem?_cons_succ] at hx
+              exact List.mem_of_getElem? hx
+            exact h.2.2.1 x hxm
+          exact fsep_promoted a b x c0 _ hs2 hext'.1 hext'.2 (by omega) hle
     | [], _, _, hlen => simp at hlen
     | [_], _, _, hlen => simp at hlen
     | [_, _], _, _, hlen => simp at hlen
@@ -92,6 +99,56 @@ theorem files_sorted_except_promotion (ms : List FileEnt) :
   refine ⟨?_, boost_sorted_except_promotion _ (sortDesc_desc _ ms)⟩
   unfold sortFiles
   exact (boost_perm _ 2 9 10).trans (sortDesc_perm _ ms)
+
+/-- **results aggregated from several shards**: whatever the chunks (per-shard results) are, in whatever order they
+    arrive, with or without a document display limit, what `collectSender` returns is non-increasing except for the
+    single documented promotion — in particular a promotion made while an earlier chunk was ranked does not survive the
+    re-ranking of the next chunk as a second out-of-order file. -/
+theorem collect_sorted_except_promotion (docLimit : Nat) (chunks : List (List FileEnt)) :
+    filesSortedExceptPromotion (collect docLimit chunks) = true := by
+  unfold collect
+  split
+  · have : ∀ (agg : List FileEnt), filesSortedExceptPromotion agg = true →
+        filesSortedExceptPromotion (chunks.foldl (collectStep docLimit) agg) = true := by
+      induction chunks with
+      | nil => intro agg h; exact h
+      | cons c cs ih =>
+        intro agg h
+        simp only [List.foldl_cons]
+        apply ih
+        unfold collectStep
+        split
+        · exact h
+        · exact fsep_take _ _ (files_sorted_except_promotion _).2
+    exact this [] (by decide)
+  · exact (files_sorted_except_promotion _).2
+
+/-- the collector only returns files it was sent -/
+theorem collect_subset (docLimit : Nat) (chunks : List (List FileEnt)) :
+    ∀ f ∈ collect docLimit chunks, f ∈ chunks.flatten := by
+  unfold collect
+  split
+  · have : ∀ (agg : List FileEnt), ∀ f ∈ chunks.foldl (collectStep docLimit) agg, f ∈ agg ∨ f ∈ chunks.flatten := by
+      induction chunks with
+      | nil => intro agg f hf; exact Or.inl hf
+      | cons c cs ih =>
+        intro agg f hf
+        simp only [List.foldl_cons] at hf
+        rcases ih _ f hf with h | h
+        · unfold collectStep at h
+          split at h
+          · exact Or.inl h
+          · have h' := (files_sorted_except_promotion (agg ++ c)).1.mem_iff.1 (List.mem_of_mem_take h)
+            rcases List.mem_append.1 h' with h' | h'
+            · exact Or.inl h'
+            · exact Or.inr (by simp [h'])
+        · exact Or.inr (by simp only [List.flatten_cons, List.mem_append]; exact Or.inr h)
+    intro f hf
+    rcases this [] f hf with h | h
+    · simp at h
+    · exact h
+  · intro f hf
+    exact (files_sorted_except_promotion _).1.mem_iff.1 hf
 
 /-! ### DebugScore -/
 
@@ -210,6 +267,13 @@ def exEnts : List FileEnt := [⟨85, ".go", 0⟩, ⟨100, ".go", 1⟩, ⟨90, ".
 example : (sortFiles exEnts).map (·.id) = [1, 2, 3, 0, 4] ∧ filesSortedExceptPromotion (sortFiles exEnts) = true := by decide
 /-- and it does not when the score is too far off -/
 example : (sortFiles [⟨50, ".go", 0⟩, ⟨100, ".go", 1⟩, ⟨80, ".go", 2⟩, ⟨40, ".md", 3⟩]).map (·.id) = [1, 2, 0, 3] := by decide
+/-- the collector on the shape behind seeded change C29-c: the first chunk ranks `.md` (84) into third place ahead of
+    the `.go` 86; the second chunk brings an 85 — after re-ranking everything it sits behind the 86 -/
+example : (collect 10 [[⟨100, ".go", 0⟩, ⟨90, ".go", 1⟩, ⟨86, ".go", 2⟩, ⟨84, ".md", 3⟩], [⟨85, ".go", 4⟩]]).map (·.id) = [0, 1, 3, 2, 4] := by decide
+/-- … whereas a merge that trusts the aggregate to be in score order yields 0,1,3,4,2, which the statement rejects -/
+example : filesSortedExceptPromotion [⟨100, ".go", 0⟩, ⟨90, ".go", 1⟩, ⟨84, ".md", 3⟩, ⟨85, ".go", 4⟩, ⟨86, ".go", 2⟩] = false := by decide
+/-- a high-scoring file in third place is not a "promotion" -/
+example : filesSortedExceptPromotion [⟨2, ".go", 0⟩, ⟨2, ".go", 1⟩, ⟨100, ".md", 2⟩, ⟨1, ".go", 3⟩] = false := by decide
 /-- the predicate is not trivially true -/
 example : filesSortedExceptPromotion [⟨1, ".go", 0⟩, ⟨2, ".go", 1⟩] = false := by decide
 example : filesSortedExceptPromotion [⟨9, ".go", 0⟩, ⟨8, ".go", 1⟩, ⟨1, ".go", 2⟩, ⟨7, ".go", 3⟩] = false := by decide
